@@ -581,7 +581,9 @@ PYR_TO_GMSH = [0, 3, 4, 1, 2]
 
 
 def write_msh(c, blocks=1):
-    """$MeshFormat 4.1 0 8; $Nodes in `blocks` entity blocks; $Elements one block per kind: `tag nodes` (1-based)"""
+    """$MeshFormat 4.1 0 8; $Nodes in `blocks` entity blocks; $Elements one block per kind: `tag nodes` (1-based).
+    Gmsh expects boundary faces pointing outward, refine keeps them pointing inward: triangles and quads are stored
+    reversed (the convention ref_export_msh documents)"""
     f = TFile()
     f.toks += [tw('$MeshFormat'), NL, tf(struct.pack('>d', 4.1).hex())]
     f.put(None, ti(0))
@@ -620,6 +622,8 @@ def write_msh(c, blocks=1):
             nodes = r[:PER[k]]
             if k == 'pyr':
                 nodes = [nodes[i] for i in PYR_TO_GMSH]
+            if k in ('tri', 'qua'):
+                nodes = nodes[::-1]
             f.put('id', ti(r[PER[k]] if k in TAGGED else j + 1))
             for x in nodes:
                 f.put('index', ti(x + 1))
@@ -678,6 +682,8 @@ def parse_msh(toks):
             nodes_ = [x - 1 for x in v[1:]]
             if kd == 'pyr':
                 nodes_ = [nodes_[i] for i in inv(PYR_TO_GMSH)]
+            if kd in ('tri', 'qua'):
+                nodes_ = nodes_[::-1]
             cells[kd].append(nodes_ + ([v[0]] if kd in TAGGED else []))
         tot += n
     if tot != ne:
@@ -861,10 +867,6 @@ def expected_after_write(ext, c):
         r['twod'] = False
     if ext in ('tri', 'fgrid', 'msh'):
         r['twod'] = False
-    if ext == 'msh':
-        # refine stores boundary faces pointing inward, Gmsh expects them outward: the writer reverses them
-        r['cells']['tri'] = [x[:3][::-1] + x[3:] for x in r['cells']['tri']]
-        r['cells']['qua'] = [x[:4][::-1] + x[4:] for x in r['cells']['qua']]
     if ext == 'su2':
         if c['twod']:
             r['nodes'] = [(n[0], n[1], Z) for n in c['nodes']]
@@ -880,11 +882,7 @@ def expected_after_write(ext, c):
 def expected_roundtrip(ext, c):
     """the mesh C08 requires after write + read: the same cells, orientation and tags (boundary faces in the writer's
     order)"""
-    r = expected_after_write(ext, c)
-    if ext == 'msh':
-        r = restrict(c, ext)
-        r['twod'] = False
-    return r
+    return expected_after_write(ext, c)
 
 
 def gen_write(rng, tier):
@@ -935,7 +933,12 @@ def oracle_write(ops, impl):
 
 
 def file_of(rng, ext, c):
-    """an independently written file of the mesh, with some layout freedom (blank lines, CR LF) the format allows"""
+    """an independently written file of the mesh, with some layout freedom the format allows"""
+    if ext == 'su2':
+        # markers 1, 2, .., max: position and name agree (refine numbers by position; see finding su2-marker-tag-ignored)
+        bnd = ('edg',) if c['twod'] else ('tri', 'qua')
+        ids = [r[PER[k]] for k in bnd for r in c['cells'][k]]
+        return write_su2(c, tags=list(range(1, max(ids) + 1)) if ids else [])
     if ext == 'grid':
         chains = [rng.sample(range(len(c['nodes'])), rng.randint(2, 4)) for _ in range(rng.randint(1, 3))]
         f = write_grid(dict(c, cells=dict(EMPTY, tri=[r[:3] for r in c['cells']['tri']],
@@ -957,6 +960,9 @@ def gen_read(rng, tier):
             else:
                 m = gen_for(rng, ext, ids=1 if ext == 'su2' else None)
             c = restrict(compact(m), ext) if ext != 'grid' else compact(m)
+            if ext == 'msh':
+                c['cells']['tri'] = []
+                c['cells']['qua'] = []
             f = file_of(rng, ext, c)
             toks = f.toks
             if i % 2 and ext not in ('su2',):
@@ -1514,10 +1520,12 @@ def rst_expect(n, b):
     if len(b) < 40 or struct.unpack_from('<i', b, 0)[0] != 8:
         raise ValueError('magic')
     ver, dim, variables, steps, dof, doubles = struct.unpack_from('<6i', b, 12)
-    if ver != 2 or dim not in (2, 3) or doubles != 0 or min(variables, steps, dof) < 0 or dof < n:
-        raise ValueError('header')
+    if ver != 2 or dim not in (2, 3) or doubles != 0 or min(variables, dof) < 0 or steps < 1 or dof < n:
+        raise ValueError('header')          # a restart holds at least one time step
     if len(b) < 36 + 8 * variables * steps * dof:
         raise ValueError('short')
+    if variables == 0:
+        return 0, [[] for _ in range(n)]
     rows = [[None] * (variables * steps) for _ in range(n)]
     p = 36
     for s in range(steps):
@@ -1546,6 +1554,8 @@ def snap_expect(n, b):
                 raise ValueError('name length')
             p += 8 + nc
             flen = u64(p)
+            if flen >= 2 ** 62:
+                raise ValueError('field length')
             p += 8
             end = p + flen
             nn = u64(p)
@@ -1554,6 +1564,8 @@ def snap_expect(n, b):
             p += 12
         else:
             flen = u64(p)
+            if flen >= 2 ** 62:
+                raise ValueError('field length')
             p += 8
             end = p + flen
             nn, el, npair = u64(p), u64(p + 8), u64(p + 16)
@@ -1772,11 +1784,14 @@ def gen_msh_o2n(rng, tier):
 
 
 def gen_msh_flip(rng, tier):
-    """boundary faces that no volume cell backs (a surface or 2-D mesh): written reversed, read as written"""
+    """boundary faces that no volume cell backs (a surface or 2-D mesh): written reversed (outward, what Gmsh expects),
+    read as written"""
     ops = []
     for _ in range(1 if tier == 'quick' else 6):
         m = gen_mesh(rng, kinds=['tri', 'qua', 'edg'], holes=False)
         ops.append(' '.join(['rt', 'msh'] + mesh_words(m)))
+        c = restrict(compact(gen_mesh(rng, kinds=['tri', 'qua', 'tet'], holes=False)), 'msh')
+        ops.append('imp msh | ' + ' '.join(write_msh(c).toks))
     return ops
 
 
@@ -1800,7 +1815,7 @@ def gen_su2_nobnd(rng, tier):
 
 def tagged_write(site):
     def oracle(ops, impl):
-        return [(i, m, site) for i, m in oracle_write(ops, impl) + oracle_returns(ops, impl)]
+        return [(i, m, site) for i, m in oracle_write(ops, impl) + oracle_read(ops, impl) + oracle_returns(ops, impl)]
     return oracle
 
 
